@@ -45,4 +45,46 @@ Definition np_fro_norm_m (m : M3 T) : T := nsqrt (fnorm2 m).
 Definition np_fro_norm_p_minus_eye (E : Pose T) : T := nsqrt (fnorm2 (msub (prot E) I3) +! nrm2 (ptr E)).
 (* for i in range(n): acc = body acc i *)
 Definition py_for_range {S : Type} (n : nat) (body : S -> nat -> S) (init : S) : S := fold_left body (seq 0 n) init.
+
+(* ---- 1-D float arrays (lists), Python dicts keyed by non-negative ints, sorted() on pairs of ints ---- *)
+Definition np_add_scalar (l : list T) (a : T) : list T := map (fun s => s +! a) l.     (* l += a / l + a *)
+Definition np_sub_scalar (l : list T) (a : T) : list T := map (fun s => s -! a) l.     (* l - a *)
+Definition np_abs_list (l : list T) : list T := map nabs l.                            (* np.abs(l) *)
+(* np.argmin: index of the first minimal element *)
+Fixpoint np_argmin_aux (best : nat) (bv : T) (i : nat) (l : list T) : nat :=
+  match l with
+  | [] => best
+  | x :: r => if x <?! bv then np_argmin_aux i x (S i) r else np_argmin_aux best bv (S i) r
+  end.
+Definition np_argmin (l : list T) : nat := match l with [] => 0 | x :: r => np_argmin_aux 0 x 1 r end.
+Definition np_item (l : list T) (i : nat) : T := nth i l n0.                           (* l[i] *)
+(* for i, x in enumerate(l): acc = body acc i x *)
+Fixpoint py_for_enumerate_from {St A : Type} (i : nat) (l : list A) (body : St -> nat -> A -> St) (acc : St) : St :=
+  match l with [] => acc | x :: r => py_for_enumerate_from (S i) r body (body acc i x) end.
+Definition py_for_enumerate {St A : Type} (l : list A) (body : St -> nat -> A -> St) (acc : St) : St :=
+  py_for_enumerate_from 0 l body acc.
 End Np.
+
+(* a Python dict with int keys, in insertion order *)
+Section Dict.
+Context {V : Type}.
+Definition py_dict := list (nat * V).
+Definition py_dict_empty : py_dict := [].
+Fixpoint py_dict_lookup (k : nat) (d : py_dict) : option V :=
+  match d with [] => None | (k', v) :: r => if Nat.eqb k' k then Some v else py_dict_lookup k r end.
+Definition py_dict_mem (k : nat) (d : py_dict) : bool := match py_dict_lookup k d with Some _ => true | None => false end.   (* k in d *)
+Definition py_dict_get (dflt : V) (k : nat) (d : py_dict) : V := match py_dict_lookup k d with Some v => v | None => dflt end.   (* d[k] *)
+Fixpoint py_dict_replace (k : nat) (v : V) (d : py_dict) : py_dict :=
+  match d with [] => [] | (k', w) :: r => if Nat.eqb k' k then (k', v) :: r else (k', w) :: py_dict_replace k v r end.
+Definition py_dict_set (k : nat) (v : V) (d : py_dict) : py_dict :=       (* d[k] = v : new keys go to the end, old keys keep their place *)
+  match py_dict_lookup k d with None => d ++ [(k, v)] | Some _ => py_dict_replace k v d end.
+Definition py_dict_items (d : py_dict) : list (nat * V) := d.              (* d.items() *)
+End Dict.
+
+(* sorted() on tuples of two ints: lexicographic order (insertion sort; the result of a comparison sort is unique) *)
+Definition py_pair_leb (p q : nat * nat) : bool :=
+  if Nat.ltb (fst p) (fst q) then true else if Nat.eqb (fst p) (fst q) then Nat.leb (snd p) (snd q) else false.
+Fixpoint py_insert_pair (p : nat * nat) (l : list (nat * nat)) : list (nat * nat) :=
+  match l with [] => [p] | q :: r => if py_pair_leb p q then p :: q :: r else q :: py_insert_pair p r end.
+Fixpoint py_sorted_pairs (l : list (nat * nat)) : list (nat * nat) :=
+  match l with [] => [] | p :: r => py_insert_pair p (py_sorted_pairs r) end.
